@@ -6,6 +6,7 @@ vs the Rust meaning of the syntax computed independently; (2) whole declarations
 with foreign keys fixing a literal count: the branch selected at parse time = the first branch containing the count;
 (3, thorough) compiled probe crates: `td_string!(l, r, count = n)` at run time."""
 from .pipe import *
+import re
 from . import probe
 from fractions import Fraction
 
@@ -206,9 +207,9 @@ def run(ctx):
                                                                           "expected_by_spec": exp, "implementation": got})
     decls = []
     for _ in range(ctx.budget(120, 2500)):
-        ty = rng.pick(["i8", "u8", "i8", "u8", "i32", "u16", "i64"])
+        ty = rng.pick(["i8", "u8", "i8", "u8", "i32", "u16", "i64", "f64", "f64", "f32"])
         nb = rng.range(1, 4)
-        specs = [[proj.gen_range_spec(rng, ty) for _ in range(rng.range(1, 2))] for _ in range(nb)]
+        specs = [[proj.gen_range_spec(rng, ty) for _ in range(rng.weighted([(4, 1), (3, 2), (2, 3), (1, 4)]))] for _ in range(nb)]
         items = [ty]
         for bi, ss in enumerate(specs):
             val = f"B{bi}:{{{{ count }}}}"
@@ -220,22 +221,36 @@ def run(ctx):
         means = [[meaning(ty, s) for s in ss] for ss in specs]
         if any(m[0] == "err" for ms in means for m in ms):
             continue
-        lo, hi = BOUNDS[ty]
-        cands = list(range(lo, hi + 1)) if ty in ("i8", "u8") else [rng.range(max(lo, -400), min(hi, 700)) for _ in range(40)]
-        if ctx.quick and ty in ("i8", "u8"):
-            cands = rng.sample(cands, 64)
+        isf = ty in ("f32", "f64")
+        if isf:
+            # literal float counts: every number written in the specifications, and its neighbours
+            written = sorted({Fraction(x) for ss in specs for sp in ss for x in re.findall(r"-?\d+(?:\.\d+)?", sp)})
+            near = sorted({w + d for w in written for d in (0, Fraction(1, 2), -Fraction(1, 4))})
+            cands = (near if len(near) <= 38 else rng.sample(near, 38)) + [Fraction(16777217), Fraction(1, 10)]
+        else:
+            lo, hi = BOUNDS[ty]
+            cands = list(range(lo, hi + 1)) if ty in ("i8", "u8") else [rng.range(max(lo, -400), min(hi, 700)) for _ in range(40)]
+            if ctx.quick and ty in ("i8", "u8"):
+                cands = rng.sample(cands, 64)
         pairs = [("r", proj.A(items))]
         refs = {}
         for n in cands:
+            if isf:
+                lit = repr(float(n))                       # what is written in the file: always with a decimal point
+                if "e" in lit or Fraction(lit) != n:
+                    continue
+                shown = lit[:-2] if lit.endswith(".0") else lit     # Rust's Display of the float
+            else:
+                lit = shown = str(n)
             exp = None
             for bi, ms in enumerate(means):
                 if any(m[1](Fraction(n)) for m in ms):
-                    exp = f"B{bi}:{n}"
+                    exp = f"B{bi}:{shown}"
                     break
             if exp is None:
-                exp = f"FB:{n}"
-            key = f"c_{'m' if n < 0 else ''}{abs(n)}"
-            pairs.append((key, f"$t(r, {{\"count\": {n}}})"))
+                exp = f"FB:{shown}"
+            key = "c_" + lit.replace("-", "m").replace(".", "_")
+            pairs.append((key, f"$t(r, {{\"count\": {lit}}})"))
             refs[key] = (n, exp)
         decls.append({"default": "en", "locales": ["en"], "all_locales": ["en"], "namespaces": None, "inherits": {},
                       "files": {(None, "en"): proj.O(pairs)}, "extra_cfg": False, "meta": {}, "decl": {"refs": refs}})
